@@ -772,7 +772,42 @@ class Discharger(object):
                 if r == z3.unsat:
                     return Result(obl, 'unsat', 'uf-abstraction', None, time.time() - t0, self.stats['queries'] - q0)
         r, m = self.check(asserts, want_model=True)
+        if r == z3.unknown and kind == 'assert':
+            m2 = self.guided_witness(asserts)
+            if m2 is not None:
+                return Result(obl, 'sat', 'guided', m2, time.time() - t0, self.stats['queries'] - q0)
         return Result(obl, str(r), '', m, time.time() - t0, self.stats['queries'] - q0)
+
+    def guided_witness(self, asserts, budget=90.0):
+        """the general query timed out: look for a violating input with the harness's small-range integer and boolean
+        inputs pinned to boundary / middle / pseudo-random values (under-approximating queries: any model is a genuine model
+        of the original query and is replayed natively like every other one). Finding nothing proves nothing."""
+        import itertools, random
+        ir = getattr(self.ex, 'int_ranges', {})
+        if not ir:
+            return None
+        rnd = random.Random(12345)
+        dims = []
+        for name, (v, lo, hi) in sorted(ir.items()):
+            cand = {lo, hi, (lo + hi) // 2, min(hi, lo + 1), max(lo, hi - 1)}
+            for _ in range(3):
+                cand.add(rnd.randint(lo, hi))
+            dims.append([(v, c) for c in sorted(cand)])
+        for kind, b in self.ex.inputs:
+            if kind == 'bool' and z3.is_const(b) and str(b).startswith('b') and len(dims) < 6:
+                dims.append([(b, True), (b, False)])
+        combos = list(itertools.product(*dims))
+        rnd.shuffle(combos)
+        t0 = time.time()
+        for combo in combos[:200]:
+            if time.time() - t0 > budget:
+                break
+            pins = [(v == c) if not isinstance(c, bool) else (v if c else z3.Not(v)) for v, c in combo]
+            r, m = self.check(pins + asserts, timeout=4000, want_model=True)
+            if r == z3.sat:
+                self.stats['guided'] = self.stats.get('guided', 0) + 1
+                return m
+        return None
 
 
 def zero_divisor_candidates(ex, d, pc, limit=4):
